@@ -9,17 +9,17 @@ import (
 )
 
 type HistOpts struct {
-	NumVB     int
-	PReserved float64
-	PSystem   float64
-	PSeqAdv   float64 // probability that a snapshot ends with a seqno-advanced
-	PBig      float64
-	SkipUntil int64
-	CasAround bool // CAS values around SkipUntil +-2s
+	NumVB      int
+	PReserved  float64
+	PSystem    float64
+	PSeqAdv    float64 // probability that a snapshot ends with a seqno-advanced
+	PBig       float64
+	SkipUntil  int64
+	CasAround  bool // CAS values around SkipUntil +-2s
 	CasExtreme bool
-	Cids      []uint32
-	MaxItems  int
-	SeqGaps   bool
+	Cids       []uint32
+	MaxItems   int
+	SeqGaps    bool
 }
 
 var reservedSamples = []string{"_connector:cbgo:", "_connector:cbgo:g1:checkpoint:3", "_connector:cbgo:x", "_txn:", "_txn:atr-12", "_txn:client-record"}
